@@ -275,7 +275,10 @@ def r_id_discipline(ctx: Ctx, rule: str):
                 rep.ob(rule, "no id is consumed by a start that fails (ids stay dense)", c == frozenset({0}), func=f, construct=f"exit {k[0]}:{k[1][0].rpartition('.')[2]}", detail=str(sorted(c)))
         # the id variable
         idvars = [nm for nm, hows in sc.defs.items() if any(h[0] == "assign" and ctx.eff.paths(f).of(h[1]) == NUM for h in hows)]
-        rep.ob(rule, "the task id is read from the counter", len(idvars) == 1 and len(sc.defs[idvars[0]]) == 1, func=f, construct=f"id variable(s): {idvars}")
+        def real_defs(nm):
+            return [h for h in sc.defs[nm] if not ((h[0] == "assign" and isinstance(h[1], ast.Constant) and h[1].value is None) or
+                                                   (h[0] == "ann" and isinstance(h[2], ast.Constant) and h[2].value is None))]
+        rep.ob(rule, "the task id is read from the counter", len(idvars) == 1 and len(real_defs(idvars[0])) == 1, func=f, construct=f"id variable(s): {idvars}")
         if len(idvars) != 1:
             continue
         idv = idvars[0]
